@@ -167,7 +167,7 @@ def read_props(e, names) -> dict:
 def TRANSLATE():
     import translate
 
-    return translate.gen_registry()
+    return translate.gen_registry() + translate.gen_ctors()
 
 
 def run(chk: core.Check) -> None:
@@ -221,7 +221,7 @@ def run(chk: core.Check) -> None:
                     continue            # blanks become text:s / text:tab / text:line-break children, .text is the first text node only
                 if n == "number" and v in (0, 1):
                     continue            # text:s without text:c is one blank
-                if cls.__name__ in ("Style", "BackgroundImage") and n not in ("name", "display_name", "family", "parent_style"):
+                if cls.__name__ == "Style" and n not in ("name", "display_name", "family", "parent_style"):
                     continue            # the other arguments of Style apply to one family only
                 if n == "repeated" and v in (0, 1):
                     continue            # a repetition of 1 is the absence of the attribute
